@@ -78,6 +78,8 @@ def run(ctx):
     fsfam.judge_traces(ctx, per_case, "faulted")
     ctx.coverage["fault_traces_validated"] = nf
     ctx.coverage["cli_runs"] = cli_leg(ctx)
+    import clifam
+    clifam.replay(ctx, "C16")
     ctx.coverage["rule"] = ("every directory-content case of DirCheck (two creation orders) against Check/List/ListFull/Init; every Store "
                             "edge for validity / single file / empty .tmp; idle points of agent histories; the built binary on invalid "
                             "directories with and without --do-check=false")
